@@ -72,11 +72,20 @@ def run(chk: Check) -> None:
            kind='registers-on-every-path')
     # "each result under its key": two keys may name the SAME awaitable (ToContext(a=f, b=f)); a table indexed by the awaitable keeps only the last key
     for f_, tbl in ((t2, 'self._awaitables'), (prog.func('workchains.Waiting.__init__'), 'self._awaiting')):
-        for n_ in [x for x in ast.walk(f_.node) if isinstance(x, ast.Assign) and isinstance(x.targets[0], ast.Subscript) and norm(x.targets[0].value) == tbl]:
-            by_key = norm(n_.targets[0].slice) in ('key',) or norm(n_.value) != 'key'
-            chk.ob('DOM-barrier-wait', f_, by_key, f'{norm(n_)}: the registration table is indexed ' + ('by the context key' if by_key else
+        # the name the loop / comprehension gives to the context key of a pair: ``for key, awaitable in kwargs.items()`` / ``for awaitable, key in awaiting.items()``
+        sites_ = []   # (node, index expression, value expression, pair target)
+        for l_ in [x for x in ast.walk(f_.node) if isinstance(x, ast.For)]:
+            for n_ in [x for b_ in l_.body for x in ast.walk(b_) if isinstance(x, ast.Assign) and isinstance(x.targets[0], ast.Subscript) and norm(x.targets[0].value) == tbl]:
+                sites_.append((n_, n_.targets[0].slice, n_.value, l_.target))
+        for n_ in [x for x in ast.walk(f_.node) if isinstance(x, (ast.Assign, ast.AnnAssign)) and norm(x.targets[0] if isinstance(x, ast.Assign) else x.target) == tbl
+                   and isinstance(x.value, ast.DictComp) and len(x.value.generators) == 1]:
+            sites_.append((n_, n_.value.key, n_.value.value, n_.value.generators[0].target))
+        for n_, idx_, val_, tgt_ in sites_:
+            names_ = [norm(e_) for e_ in tgt_.elts] if isinstance(tgt_, ast.Tuple) else []
+            by_key = not (norm(val_) in names_ and norm(idx_) not in names_ + ['key'] or norm(val_) == 'key') or norm(idx_) == 'key'
+            chk.ob('DOM-barrier-wait', f_, by_key, f'{tbl}: the registration table is indexed ' + ('by the context key' if by_key else
                    'by the awaitable, with the key as value: the same future or child registered under two keys keeps only the last one, the other key is never filled in'),
-                   node=n_, kind='registry-keeps-every-key')
+                   node=n_, kind='registry-keeps-every-key', expr=f'{tbl} indexed by the awaitable, the key is the value')
     from ..rules import conditional_values
 
     def process_to_future(f, store_key: str, item: str) -> bool:
@@ -104,8 +113,16 @@ def run(chk: Check) -> None:
     wi = prog.func('workchains.Waiting.__init__')
     loop = [l for l in ast.walk(wi.node) if isinstance(l, ast.For)]
     aparam = wi.params[4] if len(wi.params) > 4 else 'awaiting'
+    # every (awaitable, key) pair of the mapping given ends up in self._awaiting with ITS key -- a loop that stores, or a dict comprehension
+    def pair_value(target) -> str:
+        return norm(target.elts[1]) if isinstance(target, ast.Tuple) and len(target.elts) == 2 else ''
     ok = len(loop) == 1 and aparam in norm(loop[0].iter) and '.items()' in norm(loop[0].iter) and any(
-        isinstance(s, ast.Assign) and isinstance(s.targets[0], ast.Subscript) and norm(s.targets[0].value) == 'self._awaiting' and norm(s.value) == 'key' for s in loop[0].body)
+        isinstance(s, ast.Assign) and isinstance(s.targets[0], ast.Subscript) and norm(s.targets[0].value) == 'self._awaiting' and norm(s.value) == pair_value(loop[0].target) != ''
+        for s in loop[0].body)
+    comps = [n.value for n in ast.walk(wi.node) if isinstance(n, (ast.Assign, ast.AnnAssign)) and norm(n.targets[0] if isinstance(n, ast.Assign) else n.target) == 'self._awaiting'
+             and isinstance(n.value, ast.DictComp)]
+    ok = ok or (not loop and len(comps) == 1 and len(comps[0].generators) == 1 and not comps[0].generators[0].ifs and aparam in norm(comps[0].generators[0].iter)
+                and '.items()' in norm(comps[0].generators[0].iter) and norm(comps[0].value) == pair_value(comps[0].generators[0].target) != '')
     chk.ob('DOM-barrier-wait', wi, ok, 'the waiting state tracks every awaitable it was given', kind='tracks-all')
     wstores = [s_ for l in loop for s_ in ast.walk(l) if isinstance(s_, ast.Assign) and isinstance(s_.targets[0], ast.Subscript) and norm(s_.targets[0].value) == 'self._awaiting']
     if wstores and isinstance(loop[0].target, ast.Tuple):
